@@ -26,7 +26,7 @@ ASSUMPTIONS = [
     'epochs are integers >= 0 (the statement covers 0..n_epochs; overshoot is added as a fault)',
     'float comparisons use rtol 1e-4 (float32 arithmetic inside DUCCIO)',
 ]
-COMPONENTS = {'DUCCIO, BaseRegularizer': 'real', 'PIT model with {params, ops} costs (40% of runs)': 'real',
+COMPONENTS = {'DUCCIO, BaseRegularizer': 'real', 'PIT model with {params, ops} costs (25% of runs), grammar-generated MPS / SuperNet models with dictionary costs (15%)': 'real',
               'DNAS stub with settable named costs (60% of runs)': 'stub',
               'epoch clock and training timeline': 'simulated'}
 SIM_TIME_UNIT = 'epochs (sum over runs of the span of epochs visited)'
@@ -39,15 +39,25 @@ def budget(tier):
 def generate(seed, run, tier):
     sw = Stream(seed, ID, run, 'swarm')
     rs = Stream(seed, ID, run, 'schedule')
-    kind = 'pit' if sw.chance(0.4) else 'stub'
+    kind = sw.wchoice([('stub', 6), ('pit', 2.5), ('mps', 0.8), ('sn', 0.7)])
     n_metrics = sw.randint(1, 3) if kind == 'stub' else sw.randint(1, 2)
     names = ['params', 'ops', 'lat'][:n_metrics]
+    if kind == 'mps':
+        names = ['params_bit', 'ops_bit'][:n_metrics]
     mode = sw.choice(['given', 'derived'])
     n_epochs = sw.choice([1, 2, 3, 4, 5, 7, 10, 20, 33, 50])
     faults = {k: sw.chance(0.5) for k in ('repeat', 'skip', 'back', 'late_start', 'overshoot')}
     length = sw.randint(3, 14 if tier == 'quick' else 40)
     p_other_n = sw.choice([0.0, 0.0, 0.2, 0.5])
     case = {'kind': kind, 'names': names, 'mode': mode, 'n_epochs': n_epochs}
+    if kind in ('mps', 'sn'):
+        # a real MPS / SuperNet model from the architecture grammar, with a dictionary of cost specifications
+        from sim import sched
+        cfg = sched.gen_cfg(Stream(seed, ID, run, 'cfg'), Stream(seed, ID, run, 'arch'), methods=(kind,), weights=(1,))
+        cfg['cost'] = 'dict:params_bit+ops_bit' if kind == 'mps' else 'dict:params+ops'
+        for k in ('disable_sampling', 'full_cost', 'exclude_names'):
+            cfg['ctor'].pop(k, None)   # (MPS full_cost on a fixed conv layer has no bit-width to charge: KeyError)
+        case['cfg'] = cfg
     # cost placement relative to target: 'above' | 'at' | 'below'
     # stub: base cost in [1, 1e6], target derived from placement
     metrics = {}
@@ -162,6 +172,32 @@ def execute(case):
             def scale(self, name, f):
                 self.c[name] = torch.tensor(float(self.c[name].detach()) * f, requires_grad=True)
         model = Stub()
+    elif case['kind'] in ('mps', 'sn'):
+        from sim import world as W
+        from sim.prng import torch_seed
+        rep = W.Replica(case['cfg'], torch_seed(7, 'c19build'), 'S')
+        rep.model.train()
+
+        class RealGrammar:
+            def __init__(self):
+                self.k = 0
+
+            def get_cost(self, name):
+                return rep.model.get_cost(name)
+
+            def scale(self, name, f):
+                # costs move because the selection coefficients move (and are re-sampled by a forward pass)
+                self.k += 1
+                W.perturb_arch(rep, 7, self.k, 'real')
+                x, _ = W.data_for(case['cfg'], 7, self.k)
+                torch.manual_seed(self.k)
+                with torch.no_grad():
+                    rep.model(x)
+        model = RealGrammar()
+        x0, _ = W.data_for(case['cfg'], 7, 0)
+        torch.manual_seed(0)
+        with torch.no_grad():
+            rep.model(x0)
     else:
         from plinio.methods import PIT
         from plinio.cost import params, ops as ops_spec
